@@ -60,6 +60,18 @@ def optLt (o : Option Int) (k : Int) : Bool :=
   | some v => decide (v < k)
   | none => false
 
+/-- `sys.maxsize`: `itertools.islice` rejects larger start / stop / step with ValueError -/
+def maxsize : Int := 9223372036854775807
+
+/-- `o is not None and o > k` -/
+def optGt (o : Option Int) (k : Int) : Bool :=
+  match o with
+  | some v => decide (v > k)
+  | none => false
+
+/-- `x if x is None else min(x, sys.maxsize)` (rrule.py, `__getitem__`): islice rejects larger bounds, a list slice accepts them -/
+def clampMax (o : Option Int) : Option Int := o.map (fun v => if v > maxsize then maxsize else v)
+
 /-- the walk of `islice` over the values of the iterable: `cnt` = position of the head of the
     list, `nexti` = next position to emit. -/
 def isliceGo (stop : Option Nat) (step : Nat) : List Int → Nat → Nat → List Int
@@ -73,6 +85,7 @@ def isliceGo (stop : Option Nat) (step : Nat) : List Int → Nat → Nat → Lis
 def islice (xs : List Int) (start stop step : Option Int) : R (List Int) :=
   if optLt start 0 || optLt stop 0 then .error .ValueError
   else if optLt step 1 then .error .ValueError
+  else if optGt start maxsize || optGt stop maxsize || optGt step maxsize then .error .ValueError   -- "0 <= x <= sys.maxsize"
   else .ok (isliceGo (stop.map Int.toNat) ((step.getD 1).toNat) xs 0 ((start.getD 0).toNat))
 
 /-- how many values `islice` pulls from the iterable before it stops pulling (`none`: until the
@@ -145,7 +158,7 @@ def gen : Query → List Int → Res
     else .ofR (getIdx xs i)                            -- line 173: list(iter(self))[item]
   | .slice a b c, xs =>
     if sliceListPath a b c then .ofRL (Py.slice xs a b c)   -- line 158
-    else .ofRL (islice xs a b c)                            -- lines 160-163
+    else .ofRL (islice xs (clampMax a) (clampMax b) (clampMax c))   -- `min(x, sys.maxsize)` for each bound, then islice
   | .contains x, xs => .bool (containsLoop x xs)
   | .count, xs => .nat xs.length                       -- `for x in self: pass; return self._len`
   | .before t inc, xs => .val (beforeLoop t inc xs none)
@@ -174,7 +187,7 @@ def stops : Query → List Int → Bool
   | .index i, ys => decide (i ≥ 0) && decide (i.toNat + 1 ≤ ys.length)
   | .slice a b c, ys =>
     !sliceListPath a b c &&
-      (match isliceNeeds a b with | some n => decide (n ≤ ys.length) | none => false)
+      (match isliceNeeds (clampMax a) (clampMax b) with | some n => decide (n ≤ ys.length) | none => false)
   | .contains x, ys => ys.any (fun i => decide (i ≥ x))
   | .count, _ => false
   | .before t inc, ys => ys.any (fun i => if inc then decide (i > t) else decide (i ≥ t))
@@ -185,6 +198,21 @@ def stops : Query → List Int → Bool
      | some c => decide ((ys.filter (fun d => if inc then decide (d ≥ t) else decide (d > t))).length > c.toNat)
      | none => false)
   | .between _ b inc, ys => ys.any (fun i => if inc then decide (i > b) else decide (i ≥ b))
+
+/-- no bound above `sys.maxsize` reaches `itertools.islice` unclamped -/
+def small : Query → Bool
+  | .slice a b c => sliceListPath a b c || !(optGt a maxsize || optGt b maxsize || optGt c maxsize)
+  | .take k => decide ((k : Int) ≤ maxsize)
+  | _ => true
+
+/-- the query and the sequence exist in CPython: a slice bound above `sys.maxsize` is clamped to it, which is
+    the list-semantics answer because no Python sequence is longer than `sys.maxsize`; `islice(rule, k)` itself
+    needs `k ≤ sys.maxsize`.  Trivially true for every other query. -/
+def fits (q : Query) (L : List Int) : Prop :=
+  match q with
+  | .slice a b c => small (.slice a b c) = true ∨ (L.length : Int) ≤ maxsize
+  | .take k => (k : Int) ≤ maxsize
+  | _ => True
 
 /-- does the query look at `_cache_complete` (or `_len`, for `count`) before calling `iter(self)`?
     Plain iteration and `islice(rule, k)` go straight to `__iter__`. -/
